@@ -244,6 +244,23 @@ func runC20(c *Ctx) {
 			r.Fail("H9", "v1:priority.Simple", "-", "UNRESOLVED-ANCHOR: no completion signal of v1 Simple found")
 		}
 	}
+	// H10: a method with a value receiver copies the whole discipline struct in the caller's
+	// goroutine at every call - an unsynchronised read of every field the goroutine writes
+	// (`func (dsc Discipline[Type]) Stop()`); the call through the pointer compiles all the same
+	r.Doc("H10", "every method of a discipline struct has a pointer receiver (a value receiver copies all fields, unsynchronised, at each call)", 120)
+	for _, p := range []*Prog{c.V1, c.V2} {
+		for _, d := range p.Discs() {
+			for i := 0; i < d.Named.NumMethods(); i++ {
+				m := d.Named.Method(i)
+				sig, _ := m.Type().(*types.Signature)
+				if sig == nil || sig.Recv() == nil {
+					continue
+				}
+				_, isPtr := sig.Recv().Type().(*types.Pointer)
+				r.Check(isPtr, "H10", p.Name+":"+d.Name+"."+m.Name()+"#receiver", p.Pos(m.Pos()), "pointer receiver", "method "+m.Name()+" of "+d.Name+" has a value receiver: every call copies the whole struct in the caller's goroutine while the discipline's goroutine writes its fields (a data race inside the library)")
+			}
+		}
+	}
 	// H7 (= E4): the release channel is closed by the scheduler's defers; a Release call is ordered
 	// before that close only by the scheduler having received it - the deferred wait leaves only
 	// when every counter is zero. Otherwise close(feedback) is concurrent with a send.
@@ -324,12 +341,13 @@ func c20prog(c *Ctx, p *Prog) {
 			case *ssa.FieldAddr:
 				classify(d, fn, x, path+"."+fieldName(x.X.Type(), x.Field), x.Type().(*types.Pointer).Elem())
 			case *ssa.DebugRef:
-			case *ssa.Call:
-				// the address handed to a product function (a pointer-receiver method of a wrapper type):
-				// what that function does through its parameter is done to the field
+			case *ssa.Call, *ssa.Defer:
+				// the address handed to a product function (a pointer-receiver method of a wrapper type),
+				// called or deferred: what that function does through its parameter is done to the field
+				ci := ref.(ssa.CallInstruction)
 				followed := false
-				if cal := p.Callee(x); cal != nil && p.IsProduct(cal) && depthOf[addr] < 3 {
-					for i, a := range x.Call.Args {
+				if cal := p.Callee(ci); cal != nil && p.IsProduct(cal) && depthOf[addr] < 3 {
+					for i, a := range ci.Common().Args {
 						if a == addr && i < len(cal.Params) {
 							depthOf[cal.Params[i]] = depthOf[addr] + 1
 							classify(d, cal, cal.Params[i], path, ftype)
@@ -338,7 +356,7 @@ func c20prog(c *Ctx, p *Prog) {
 					}
 				}
 				if !followed {
-					addAcc(d, &fieldAccess{path: path, kind: "escape", in: x, fn: fn, ftype: ftype, how: "address of the field escapes"})
+					addAcc(d, &fieldAccess{path: path, kind: "escape", in: ci, fn: fn, ftype: ftype, how: "address of the field escapes"})
 				}
 			default:
 				if in, ok := ref.(ssa.Instruction); ok {
